@@ -57,8 +57,19 @@ def run(ctx):
     core.lean_phase(ctx)
     rng = ctx.rng
     reqs, metas = [], []
+
+    def flush():
+        outs = ctx.driver.run(reqs) if reqs else []
+        for req, (op, replay, exp), out in zip(reqs, metas, outs):
+            ctx.count("model_requests")
+            if out.get("ok") != exp:
+                ctx.mismatch(op, replay, exp if op != "apply" else "recorded document", out if ("err" in out or op != "apply") else "different document")
+        del reqs[:], metas[:]
+
     fam = schemas.family()
     for si in range(ctx.budget(14, 60)):
+        if len(reqs) >= 15000:
+            flush()     # keep memory bounded in long runs
         bundled = si < len(fam) or rng.random() < 0.7
         info = fam[si % len(fam)] if bundled else schemas.random_schema(rng)
         schema = info.schema
@@ -165,11 +176,7 @@ def run(ctx):
                             stc, err = outcome(tr.doc.check)
                             if stc != "ok":
                                 ctx.violation("drop_point-invalid", f"inserting the slice at the returned point gives an invalid document: {err}", dict(replay, point=dp))
-    outs = ctx.driver.run(reqs) if reqs else []
-    for req, (op, replay, exp), out in zip(reqs, metas, outs):
-        ctx.count("model_requests")
-        if out.get("ok") != exp:
-            ctx.mismatch(op, replay, exp if op != "apply" else "recorded document", out if ("err" in out or op != "apply") else "different document")
+    flush()
     return ctx.finish(
         rule="a case is (schema, valid document, pair-aligned position) at which every structure helper is asked (can_split depth 1-2, "
              "can_join, join_point both directions, lift_target and find_wrapping on block ranges starting there, insert_point for a "
